@@ -203,7 +203,9 @@ func (m *Muxer) isAnimated() bool {
 		return true
 	}
 	for _, f := range m.frames {
-		if f.opts.Duration > 0 {
+		// Offsets, blend and dispose modes only exist in an ANMF chunk, so a
+		// single frame that sets any of them is written as an animation frame.
+		if f.opts != (FrameOptions{}) {
 			return true
 		}
 	}
